@@ -4,7 +4,8 @@
     Only statements closed by [exact] plus [Print Assumptions]. *)
 From Coq Require Import List NArith ZArith Bool.
 From GV Require Import Base.Ints Model.SimpleProofBase Model.SimpleProof Model.CommitFinalizer
-  Model.SignBytes Proofs.SignBytes Proofs.TextFmt Proofs.SimpleInv Proofs.SimpleFinalize Proofs.CommitFinalizer Proofs.CommitFinalizerReal.
+  Model.SignBytes Proofs.SignBytes Proofs.TextFmt Proofs.SimpleInv Proofs.SimpleFinalize Proofs.CommitFinalizer Proofs.CommitFinalizerReal
+  Monitors.C13Cpfm Proofs.CommitFinalizerMon.
 Import ListNotations.
 Local Open Scope N_scope.
 
@@ -58,3 +59,12 @@ Theorem C13_cpf_example :
     cp_receive (real_sb 5 1) ex_cpf_keys [170] out = Ok (Some [([170], 5); ([187], 2)], true).
 Proof. exact cpf_example. Qed.
 Print Assumptions C13_cpf_example.
+
+(** model_satisfies_monitor for the hand-over run, as a theorem: on EVERY input (well formed or not, any table of signature
+    tokens) the model's observation is accepted by the monitor that judges the implementation's observations. *)
+Theorem C13_cpf_model_satisfies_monitor : forall sb keys committed p tbl,
+  (forall a b, In a (map fst (cp_proofs p)) -> In b (map fst (cp_proofs p)) -> sb a = sb b -> a = b) ->
+  N.of_nat (List.length keys) <= 65536 ->
+  cpf_mon sb keys committed (cp_round p) (cp_proofs p) (cpf_case_obs sb tbl keys committed p) = 0.
+Proof. exact cpf_model_satisfies_monitor. Qed.
+Print Assumptions C13_cpf_model_satisfies_monitor.
